@@ -86,9 +86,11 @@ class ArgumentArrayShapeAnalysis(Transformation):
                         if val.dimensions:
                             dims = [d for d in val.dimensions if not isinstance(d, sym.Scalar)]
                             # sanitise unbounded ranges in argument
-                            dims = [sym.RangeIndex((d.lower or getattr(val.shape, 'lower', sym.IntLiteral(1)),
-                                                    d.upper or getattr(val.shape, 'upper', val.shape[i])))
-                                                    for i, d in enumerate(dims)]
+                            # (explicit bounds may be a falsy literal zero)
+                            dims = [sym.RangeIndex((
+                                d.lower if d.lower is not None else getattr(val.shape, 'lower', sym.IntLiteral(1)),
+                                d.upper if d.upper is not None else getattr(val.shape, 'upper', val.shape[i])))
+                                    for i, d in enumerate(dims)]
 
                         # determine argument dimension sizes
                         sizes = [simplify(sym.Sum((getattr(d, 'upper', d),
